@@ -1,4 +1,6 @@
 """Independent ER7 reference model, written with str.split / str.join only (no code of the library)."""
+import re
+
 
 DEFAULT_EC = {'FIELD': '|', 'COMPONENT': '^', 'SUBCOMPONENT': '&', 'REPETITION': '~', 'ESCAPE': '\\'}
 DEFAULT_EC_27 = dict(DEFAULT_EC, TRUNCATION='#')
@@ -134,6 +136,12 @@ def esc_letters(ec):
     return 'HNFSTREL' if 'TRUNCATION' in ec else 'HNFSTRE'
 
 
+# the standard's escape sequences that do not stand for a delimiter (HL7 v2 chapter 2, "use of escape sequences in text
+# fields"): hexadecimal data, locally defined, single- and multi-byte character set switches, formatting commands
+OTHER_SEQUENCES = re.compile(r'(?:X(?:[0-9A-Fa-f][0-9A-Fa-f])+|Z[0-9A-Za-z]+|C[0-9A-Fa-f]{4}|M[0-9A-Fa-f]{4}(?:[0-9A-Fa-f]{2})?|'
+                             r'\.(?:br|sp|fi|nf|in|ti|sk|ce) ?[+-]?[0-9]*)')
+
+
 def tokenize_escaped(out, ec, letters=None):
     """Left-to-right partition of an encoded leaf into ordinary characters and complete escape
     sequences <esc><letter><esc>.  Returns (tokens, problems): problems lists unescaped delimiters
@@ -152,6 +160,11 @@ def tokenize_escaped(out, ec, letters=None):
             if i + 2 < n and out[i + 1] in letters and out[i + 2] == esc:
                 toks.append(out[i:i + 3])
                 i += 3
+                continue
+            m = OTHER_SEQUENCES.match(out, i + 1) if not (esc.isalnum() or esc in '.+- ') else None
+            if m and m.end() < n and out[m.end()] == esc and not any(c in delims or c == esc for c in m.group(0)):
+                toks.append(out[i:m.end() + 1])
+                i = m.end() + 1
                 continue
             problems.append(('dangling-escape', i))
             toks.append(ch)
